@@ -1011,6 +1011,38 @@ func genC13(g *G) {
 				}
 			}
 		}
+		// announcements that match a digest of the provider's HISTORY instead of the fetched ciphertext: each call announces
+		// either the right hash or the SHA-256 of everything fetched so far including this body (also after a start-up call)
+		for _, boot := range []bool{false, true} {
+			var rec func(seq []int, evs []string, acc []byte, depth int)
+			rec = func(seq []int, evs []string, acc []byte, depth int) {
+				if len(evs) >= 2 {
+					g.Emit("refreshseq", "0,1,2,3/2", strings.Join(evs, "#"))
+				}
+				if depth == 0 {
+					return
+				}
+				for i, ct := range cts {
+					if depth == 1 && len(seq) >= 2 && !g.Thorough() && g.Intn(3) != 0 {
+						continue
+					}
+					b := hx([]byte(hex.EncodeToString(ct)))
+					acc2 := append(append([]byte{}, acc...), ct...)
+					for _, h := range []string{c13Sha(ct), c13Sha(acc2)} {
+						if len(acc) == 0 && h == c13Sha(acc2) && h == c13Sha(ct) && len(evs) > 0 {
+							continue
+						}
+						rec(append(append([]int{}, seq...), i), append(append([]string{}, evs...), h+"~"+b+"~"+c13Oracle(ct)+"~1"), acc2, depth-1)
+					}
+				}
+			}
+			if boot {
+				b0 := hx([]byte(hex.EncodeToString(cts[0])))
+				rec([]int{0}, []string{"B~" + b0 + "~" + c13Oracle(cts[0]) + "~1"}, append([]byte{}, cts[0]...), 2)
+			} else {
+				rec(nil, nil, nil, 3)
+			}
+		}
 		for i := 0; i < g.Count(250, 5000); i++ {
 			n := 3 + g.Intn(4)
 			evs := []string{}
